@@ -2,6 +2,7 @@ package rules
 
 import (
 	"fmt"
+	"go/token"
 	"sort"
 	"strings"
 
@@ -54,7 +55,7 @@ func prefixConstsIn(p *core.Prog, fns []*ssa.Function) map[string]bool {
 }
 
 func runC03(p *core.Prog, r *core.Report) {
-	r.Explain = "Decides only that the search indexes are maintained consistently, not what a query returns: (R1) every key class the put side writes for an object (object id, attribute→id plain and integer, id→attribute) is a class the delete side removes; (R2) writer, deleter and query side decide 'this attribute value is an integer' with the same parser (signed256.ParseDecimal), the writer indexes an integer only when that parser accepted it, and the deleter asks the parser for EVERY attribute it removes (no path through its loop skips the integer-key clean-up); (R3) the integer value length used to build and to cut keys is one constant; (R4) filtered and unfiltered search yield only through the status check (rule shared with C01); (R5) in the filter matcher a remembered integer parse is reused only for the stored value it was parsed from (the 'already parsed' flag starts false and is not carried around a loop that fetches a new stored value). Not covered: filter semantics, ordering, cursor continuation across pages — all functions of attribute values; no sound static argument is in reach."
+	r.Explain = "Decides only that the search indexes are maintained consistently, not what a query returns: (R1) every key class the put side writes for an object (object id, attribute→id plain and integer, id→attribute) is a class the delete side removes; (R2) writer, deleter and query side decide 'this attribute value is an integer' with the same parser (signed256.ParseDecimal), the writer indexes an integer only when that parser accepted it, and the deleter asks the parser for EVERY attribute it removes (no path through its loop skips the integer-key clean-up); (R3) the integer value length used to build and to cut keys is one constant; (R4) filtered and unfiltered search yield only through the status check (rule shared with C01); (R5) in the filter matcher a remembered integer parse is reused only for the stored value it was parsed from (the 'already parsed' flag starts false and is not carried around a loop that fetches a new stored value).; (R6) in the ordered scan of the primary attribute a mismatch ends the search only for operators whose failure is monotone in the key order — never for NUM_GT, NUM_GE, STRING_NOT_EQUAL. Not covered: filter semantics, ordering, cursor continuation across pages — all functions of attribute values; no sound static argument is in reach."
 	put := p.Func(mb + "PutMetadataForObject")
 	del := p.Func(mb + "deleteMetadata")
 	if put == nil || del == nil {
@@ -147,6 +148,115 @@ func runC03(p *core.Prog, r *core.Report) {
 	// ---------------- R5 a remembered parse belongs to the value it was parsed from
 	r5 := r.Rule("C03.R5", "the filter matcher reuses a parsed integer only for the stored value it was parsed from: the 'already parsed' flag is not carried around a loop that fetches a new stored value, and starts false", 1)
 	parsedFlagNotStale(p, r, r5)
+	// ---------------- R6 a lower-bound mismatch never ends the scan
+	r6 := r.Rule("C03.R6", "in the ordered scan of the primary attribute a filter mismatch ends the search only for operators whose failure is monotone: never for NUM_GT, NUM_GE or STRING_NOT_EQUAL (a value below a lower bound says nothing about the following keys)", 1)
+	mismatchStopsOnlyMonotone(p, r, r6)
+}
+
+// mismatchStopsOnlyMonotone: see C03.R6.
+func mismatchStopsOnlyMonotone(p *core.Prog, r *core.Report, h *core.RuleH) {
+	opK := func(n string) int64 {
+		v, _ := p.ConstInt("github.com/nspcc-dev/neofs-sdk-go/object." + n)
+		return v
+	}
+	var isMatchVal func(v ssa.Value, d int) bool
+	isMatchVal = func(v ssa.Value, d int) bool {
+		switch x := v.(type) {
+		case *ssa.Call:
+			switch core.CalleeName(x) {
+			case "pkg/core/object.intBytesMatch", "pkg/core/object.matchValues", "pkg/core/object.intMatches":
+				return true
+			}
+		case *ssa.Phi:
+			if d > 0 {
+				for _, e := range x.Edges {
+					if isMatchVal(e, d-1) {
+						return true
+					}
+				}
+			}
+		}
+		return false
+	}
+	n := 0
+	for _, fn := range p.FuncsIn("pkg/core/object") {
+		if !strings.HasPrefix(core.FuncName(fn), "pkg/core/object.MetaDataKVHandler$") {
+			continue
+		}
+		// blocks on a "does not match" edge
+		var regions []*ssa.BasicBlock
+		for _, b := range fn.Blocks {
+			iff, ok := b.Instrs[len(b.Instrs)-1].(*ssa.If)
+			if ok && isMatchVal(iff.Cond, 3) && len(b.Succs[1].Preds) == 1 {
+				regions = append(regions, b.Succs[1])
+			}
+		}
+		if len(regions) == 0 {
+			continue
+		}
+		inRegion := func(b *ssa.BasicBlock) bool {
+			for _, rg := range regions {
+				if rg.Dominates(b) {
+					return true
+				}
+			}
+			return false
+		}
+		opNot := func(name string) core.Guard {
+			k := opK(name)
+			return core.Guard{Name: "op!=" + name, Pure: true, Comps: []core.Comp{{Result: -1, Kind: core.IsFalse}}, Value: func(_ *ssa.Function, v ssa.Value) bool {
+				bo, ok := v.(*ssa.BinOp)
+				if !ok || bo.Op != token.EQL || !strings.HasSuffix(bo.X.Type().String(), "object.SearchMatchType") {
+					return false
+				}
+				c, isK := intConstOf(bo.Y)
+				return isK && c == k
+			}}
+		}
+		opNotNE := func(name string) core.Guard { // the `mch != K` spelling: passes on the false edge... of `!=`? no: `mch != K` TRUE means different
+			k := opK(name)
+			return core.Guard{Name: "op!=" + name + "(ne-form)", Pure: true, Comps: []core.Comp{{Result: -1, Kind: core.IsTrue}}, Value: func(_ *ssa.Function, v ssa.Value) bool {
+				bo, ok := v.(*ssa.BinOp)
+				if !ok || bo.Op != token.NEQ || !strings.HasSuffix(bo.X.Type().String(), "object.SearchMatchType") {
+					return false
+				}
+				c, isK := intConstOf(bo.Y)
+				return isK && c == k
+			}}
+		}
+		names := []string{"MatchNumGT", "MatchNumGE", "MatchStringNotEqual"}
+		var gs []core.Guard
+		var der []core.Derived
+		var need []string
+		for _, nm := range names {
+			gs = append(gs, opNot(nm), opNotNE(nm))
+			der = append(der, core.Derived{Name: "operator-is-not-" + nm, Alts: [][]string{{"op!=" + nm}, {"op!=" + nm + "(ne-form)"}}})
+			need = append(need, "operator-is-not-"+nm)
+		}
+		n += core.CheckEffectsFn(p, h, fn, core.EffectRule{Guards: gs, Derived: der, Need: func(string) []string { return need }, Effect: func(_ *core.Prog, in ssa.Instruction) (string, bool) {
+			if !inRegion(in.Block()) {
+				return "", false
+			}
+			switch x := in.(type) {
+			case *ssa.Store:
+				if c, ok := x.Val.(*ssa.Const); ok && x.Val.Type().String() == "bool" && c.Value != nil && c.Value.String() == "false" {
+					if _, isAlloc := x.Addr.(*ssa.Alloc); isAlloc {
+						return "stop-the-scan", true
+					}
+				}
+			case *ssa.Return:
+				if len(x.Results) == 1 {
+					if c, ok := x.Results[0].(*ssa.Const); ok && c.Value != nil && c.Value.String() == "false" {
+						return "stop-the-scan", true
+					}
+				}
+			}
+			return "", false
+		}})
+	}
+	if n == 0 {
+		r.Fatalf("%s: no 'mismatch ends the scan' site found in MetaDataKVHandler", h.ID())
+	}
 }
 
 // parsedFlagNotStale: in the search handler, `if !parsed { v, err = ParseDecimal(string(dbVal)); parsed = err == nil }` caches the
